@@ -12,6 +12,7 @@ package kube
 //      egress to private ranges outside the namespace except DNS.
 
 import (
+	"context"
 	"strconv"
 	"strings"
 
@@ -207,7 +208,12 @@ func c11expose(tag string) manifest.ServiceExpose {
 		Proto: []manifest.ServiceProtocol{manifest.TCP, manifest.UDP}[verif_Choice(tag+"-proto", 2)]}
 }
 
-func c11netpol(nsvc int) {
+func c11netpol(nsvc int) { c11netpolVia(nsvc, false) }
+
+// c11netpolVia evaluates either the policies the builder creates, or (viaClient) the policies that
+// are stored in the cluster after the real applyNetPolicies ran twice for the same lease: first for
+// an earlier version of the manifest with other exposes, then for the current one.
+func c11netpolVia(nsvc int, viaClient bool) {
 	lid := c11lid()
 	ns := lidNS(lid)
 	names := []string{"web", "api"}
@@ -216,7 +222,23 @@ func c11netpol(nsvc int) {
 		svcs = append(svcs, manifest.Service{Name: names[i], Image: "img", Count: 1, Expose: []manifest.ServiceExpose{c11expose(names[i])}})
 	}
 	group := &manifest.Group{Name: "g", Services: svcs}
-	pols, err := newNetPolBuilder(Settings{NetworkPoliciesEnabled: true}, lid, group).create()
+	var pols []*netv1.NetworkPolicy
+	var err error
+	if viaClient {
+		kc := c11newKC(ns)
+		var old []manifest.Service
+		for i := 0; i < nsvc; i++ {
+			old = append(old, manifest.Service{Name: names[i], Image: "img", Count: 1, Expose: []manifest.ServiceExpose{c11expose("old-" + names[i])}})
+		}
+		settings := Settings{NetworkPoliciesEnabled: true}
+		err = applyNetPolicies(context.Background(), kc, newNetPolBuilder(settings, lid, &manifest.Group{Name: "g", Services: old}))
+		verif_Assert(err == nil, "C11 network policies are generated when enabled")
+		err = applyNetPolicies(context.Background(), kc, newNetPolBuilder(settings, lid, group))
+		pols = kc.np.list()
+		verif_Reach("applied-twice")
+	} else {
+		pols, err = newNetPolBuilder(Settings{NetworkPoliciesEnabled: true}, lid, group).create()
+	}
 	verif_Assert(err == nil && len(pols) >= 1, "C11 network policies are generated when enabled")
 	if err != nil {
 		return
@@ -297,6 +319,9 @@ func c11netpol(nsvc int) {
 
 func Harness_C11_netpol()   { c11netpol(1) }
 func Harness_C11_netpol_2() { c11netpol(2) }
+
+// the policies in force after a manifest update of the same lease
+func Harness_C11_netpol_applied() { c11netpolVia(1, true) }
 
 // network policies disabled: nothing generated (the statement is conditional on the flag)
 func Harness_C11_netpol_off() {
